@@ -1,5 +1,7 @@
 package res
 
+import "errors"
+
 // Error represents an RES error
 type Error struct {
 	Code    string      `json:"code"`
@@ -16,6 +18,9 @@ func ToError(err error) *Error {
 	rerr, ok := err.(*Error)
 	if !ok {
 		rerr = InternalError(err)
+	} else if rerr == nil {
+		// A nil *Error is not an error to respond with
+		rerr = InternalError(errors.New("nil *Error"))
 	}
 	return rerr
 }
